@@ -185,7 +185,9 @@ func bigValues() []value {
 		}
 	}
 	// structs with ids around the by-id threshold
-	for _, ids := range [][]int16{{254, 255, 256}, {256, 257, 258}, {257, 256, 255}, {1, 255, 300}, {300, 2, 256, 1}, {1, 2, 3}, {1, 2, 3, 4, 5, 6, 8, 9, 10, 11}} {
+	for _, ids := range [][]int16{{254, 255, 256}, {256, 257, 258}, {257, 256, 255}, {1, 255, 300}, {300, 2, 256, 1}, {1, 2, 3}, {1, 2, 3, 4, 5, 6, 8, 9, 10, 11},
+		// ids on and next to the powers of two (growth steps of the by-id children table: capacity 16, 32, 64, 128)
+		{1, 32}, {16}, {15, 17}, {1, 2, 3, 20, 64}, {5, 17, 64, 128}, {1, 31, 33}, {2, 63, 65, 127, 129}} {
 		var fs []tbin.SField
 		for i, id := range ids {
 			t := []*tbin.Shape{tbin.Sc(tbin.I32), tbin.Sc(tbin.STRING), tbin.ListS(tbin.Sc(tbin.I16)), tbin.Sc(tbin.DOUBLE)}[i%4]
